@@ -31,6 +31,9 @@ fn dispatch(op: &str, args: &[Sexp]) -> String {
         "gdsraw.import" => crate::props::c0607::op_import(args),
         "place" => crate::props::c09::op_place(args),
         "place.array" => crate::props::c09::op_array(args),
+        "c20.abs2gds" => crate::props::c20::op_abs2gds(args),
+        "c20.abs2lef" => crate::props::c20::op_abs2lef(args),
+        "c20.lefrt" => crate::props::c20::op_lefrt(args),
         "tf.apply" => crate::props::c12::op_apply(args),
         "tf.general" => crate::props::c12::op_general(args),
         "raw.flatten" => crate::props::c12::op_flatten(args),
